@@ -251,50 +251,54 @@ func (pg *Page) split(sym string, values map[string]string) (map[string]string, 
 func (pg *Page) joinSink(sinkValues []string, remaining uint32, menuSizes [4]uint32) (string, uint16, error) {
 	l := 0
 	var count uint16
-	tb := strings.Builder{}
-	rb := strings.Builder{}
+	var pages []string
+	var rows []string
 
 	// remaining is remaining less one LF
-	netRemaining := remaining - 1
+	netRemaining := int(remaining) - 1
 
-	// BUG: this reserves the previous browse before we know we need it
+	// room for the "next" browse entry, needed as soon as there can be a second page
 	if len(sinkValues) > 1 {
-		netRemaining -= (menuSizes[1] + 1)
+		netRemaining -= int(menuSizes[1]) + 1
 	}
 
 	for i, v := range sinkValues {
 		l += len(v)
 		logg.Tracef("processing sink", "idx", i, "value", v, "netremaining", netRemaining, "l", l)
-		if uint32(l) > netRemaining-1 {
-			if tb.Len() == 0 {
+		if l > netRemaining-1 {
+			if len(rows) == 0 {
 				return "", 0, fmt.Errorf("capacity insufficient for sink field %v", i)
 			}
-			rb.WriteString(tb.String())
-			rb.WriteRune('\n')
-			c := uint32(rb.Len())
-			pg.sizer.AddCursor(c)
-			tb.Reset()
+			pages = append(pages, strings.Join(rows, "\x00"))
+			rows = nil
 			l = len(v)
 			if count == 0 {
-				netRemaining -= (menuSizes[2] + 1)
+				// every page after the first shows the "previous" browse entry aswell
+				netRemaining -= int(menuSizes[2]) + 1
 			}
 			count += 1
 		}
-		if tb.Len() > 0 {
-			tb.WriteByte(byte(0x00))
+		if len(rows) > 0 {
 			l += 1
 		}
-		tb.WriteString(v)
+		rows = append(rows, v)
 	}
 
-	if tb.Len() > 0 {
-		rb.WriteString(tb.String())
+	if len(rows) > 0 {
+		pages = append(pages, strings.Join(rows, "\x00"))
 		count += 1
 	}
 
-	r := rb.String()
-	r = strings.TrimRight(r, "\n")
-	return r, count, nil
+	// one cursor per page after the first, which starts at 0
+	c := 0
+	for i, p := range pages {
+		if i == len(pages)-1 {
+			break
+		}
+		c += len(p) + 1
+		pg.sizer.AddCursor(uint32(c))
+	}
+	return strings.Join(pages, "\n"), count, nil
 }
 
 func (pg *Page) applyMenuSink(ctx context.Context) ([]string, error) {
